@@ -569,6 +569,9 @@ func (e *Engine) liveSlots(m *MapObj) []*Term {
 		if !e.rangeNoDedupe || hasDeletes(m) {
 			for j := i + 1; j < n && c != False; j++ {
 				sj := m.slots[j]
+				if e.rangeNoDedupe && !sj.del {
+					continue
+				}
 				same := And(sj.live, eqVal(sj.key, si.key))
 				if same == False {
 					continue
@@ -595,12 +598,11 @@ func (fr *frame) mapLen(mv MapV, g *Term) *Term {
 	for _, al := range mv.alts {
 		n := BV(IntW, 0)
 		if al.m != nil {
-			save := fr.e.rangeNoDedupe
-			fr.e.rangeNoDedupe = false
+			// Under the NoDedupe option (maps observed as sets) duplicates of a key are counted once per log entry:
+			// the result is exact for emptiness tests and an upper bound otherwise (stated as a cut for those harnesses).
 			for _, c := range fr.e.liveSlots(al.m) {
 				n = BinBV("bvadd", n, Ite(c, BV(IntW, 1), BV(IntW, 0)))
 			}
-			fr.e.rangeNoDedupe = save
 		}
 		if acc == nil {
 			acc = n
